@@ -330,7 +330,10 @@ func NewMux(opts ...MuxOption) (*Mux, error) {
 	for _, v := range muxOpts.codecs {
 		muxOpts.codecsByName[v.Name()] = v
 	}
-	for k := range muxOpts.codecs {
+	for k, v := range muxOpts.codecs {
+		if _, ok := v.(codecHTTPBody); ok {
+			continue // keyed by message name, not a media type to negotiate
+		}
 		muxOpts.contentTypeOffers = append(muxOpts.contentTypeOffers, k)
 	}
 	sort.Strings(muxOpts.contentTypeOffers)
